@@ -213,7 +213,7 @@ int main(int argc, char** argv) {
         const long cap = args.geti("max_variants", 400);
         rep.run_cases([&](long idx, Rng& rng) {
             std::string base, origin;
-            if (rng.chance(0.7)) { gdeck::Opts o; gdeck::Generator gen(rng, o); base = gen.generate().text(); origin = "gdeck-model"; }
+            if (rng.chance(0.7)) { gdeck::Opts o; o.exoticRunspec = rng.chance(0.5); gdeck::Generator gen(rng, o); base = gen.generate().text(); origin = "gdeck-model"; }
             else {
                 std::vector<const Seed*> small;
                 for (auto& sd : corpus) if (sd.name.find("seed raw") == std::string::npos && sd.text.size() < 40000) small.push_back(&sd);
@@ -269,6 +269,7 @@ int main(int argc, char** argv) {
         if (rng.chance(0.2)) {
             // complete generated model (70 schedule keyword templates, MSW, UDQ, ACTIONX, network ...): reaches the handlers
             gdeck::Opts o;
+            o.exoticRunspec = rng.chance(0.5);
             gdeck::Generator gen(rng, o);
             gdeck::Model m = gen.generate();
             base = m.text(); origin = "gdeck-model";
